@@ -25,11 +25,11 @@ type sgen struct {
 
 var synAssets = []string{"USD", "EUR/2", "COIN", "A", "X/Y/Z", "B2", "U/"}
 var synAccounts = []string{"a", "b", "world", "acc", "users:001", "a-b_c:D", "x:y:z", "0"}
-var synStrings = []string{"", "k", "hello world", "a b c", `q\"uote`, "tab\there", "1/2", "$x @a", "// not a comment", "/* nor this */"}
-var synStringsNA = []string{"é", "日本語", "ß→", "añb", "Ωmega", "é é", "日/本"}
+var synStrings = []string{"", "k", "hello world", "a b c", `q\"uote`, `say \"hi\"`, `\"`, `ends with \"`, `\"\"`, `back\slash`, "tab\there", "1/2", "$x @a", "// not a comment", "/* nor this */"}
+var synStringsNA = []string{"é", "日本語", "ß→", "añb", "Ωmega", "é é", "日/本", "😀", "a😀b", "𝄞", "x😀😀", "é😀"}
 var synFnNames = []string{"set_tx_meta", "set_account_meta", "meta", "balance", "overdraft", "foo", "a_b_", "x"}
 var synTypes = []string{"monetary", "account", "portion", "asset", "number", "string", "foo", "bar_"}
-var synVarNames = []string{"x", "y1", "_z", "amount", "a_b2", "p", "q", "acc", "v_"}
+var synVarNames = []string{"x", "y1", "_z", "amount", "a_b2", "p", "q", "acc", "v_", "fee", "fee1", "fee2", "source_a", "source_b", "source"}
 
 func (g *sgen) number() *Num {
 	switch g.r.Intn(10) {
